@@ -133,7 +133,8 @@ def refute_by_sampling(pc, g, inputs, tries=10, seed=0):
     rnd = random.Random(4242 + seed)
     for t in range(tries):
         so = z3.Solver()
-        so.set('timeout', 2500)
+        so.set('rlimit', int(2500 * RLIMIT_PER_MS))
+        so.set('timeout', 25000)
         so.add(*pc)
         so.add(z3.Not(g))
         for nm, kd in geo:
@@ -203,7 +204,8 @@ def refute_with_line_abstraction(pc, g, inputs, timeout_ms=6000):
     if fail or not lams:
         return None
     so = z3.Solver()
-    so.set('timeout', timeout_ms)
+    so.set('rlimit', int(timeout_ms * RLIMIT_PER_MS))
+    so.set('timeout', timeout_ms * 10)
     so.add(*apc)
     so.add(z3.Not(ag))
     items = list(lams.values())
@@ -245,7 +247,8 @@ def prove(pc, goal, timeout_ms, cross=False, light=False, inputs=None):
     g = z3.BoolVal(False) if isinstance(goal, bool) else goal
     def attempt(ms):
         so_ = z3.Solver()
-        so_.set('timeout', ms)
+        so_.set('rlimit', int(ms * RLIMIT_PER_MS))      # deterministic budget (see core.oneshot); wall clock = safety net
+        so_.set('timeout', int(ms * 10))
         so_.add(*pc)
         so_.add(z3.Not(g))
         return so_, so_.check()
@@ -280,7 +283,8 @@ def prove(pc, goal, timeout_ms, cross=False, light=False, inputs=None):
             return status, backend, dt, model, reason
         # a time-out under load must not flip a verdict: one more one-shot attempt with a 4x budget and another seed
         so2 = z3.Solver()
-        so2.set('timeout', timeout_ms * 4)
+        so2.set('rlimit', int(timeout_ms * 4 * RLIMIT_PER_MS))
+        so2.set('timeout', timeout_ms * 40)
         so2.set('random_seed', 7)
         so2.add(*pc)
         so2.add(z3.Not(g))
@@ -314,7 +318,7 @@ def run_z3_cli(smt, tlimit_s):
         fh.write(smt)
         path = fh.name
     try:
-        r = subprocess.run([z3new, f'-T:{tlimit_s}', path], capture_output=True, text=True, timeout=tlimit_s + 5)
+        r = subprocess.run([z3new, f'-T:{tlimit_s * 10}', f'rlimit={int(tlimit_s * 1000 * RLIMIT_PER_MS)}', path], capture_output=True, text=True, timeout=tlimit_s * 10 + 5)
         first = (r.stdout.strip().splitlines() or ['unknown'])[0].strip()
         return first if first in ('sat', 'unsat') else 'unknown'
     except Exception:
@@ -569,6 +573,7 @@ def run_task(args):
         E = new_engine(mod, src)
         if mutant:
             E.FEAS_TIMEOUT = 800       # controls only need one refuted obligation; undecided feasibility explores both sides anyway
+            E.FEAS_RETRY = False
         C = mod.contract(cname)
         if hasattr(C, 'use_contracts'):
             # this contract is proved against its own set of callee contracts (e.g. a callee inlined elsewhere in the module)
@@ -586,7 +591,8 @@ def run_task(args):
             if pk in seen_pc or ob['kind'] in ('div0', 'pre'):
                 continue
             so = z3.Solver()
-            so.set('timeout', 3000)
+            so.set('rlimit', int(3000 * RLIMIT_PER_MS))
+            so.set('timeout', 30000)
             so.add(*ob['pc'])
             seen_pc[pk] = so.check()
         # an infeasible PATH is harmless (feasibility queries that time out never prune, so vacuous paths are explored);
